@@ -183,6 +183,12 @@ def gen_config(rng, all_atom=None, tier="quick"):
                 template["text"] = text + ion
                 template["mass"] += ion_mass
         frags.append(template)
+    dollar = sorted({d for f in frags for ds in f["descs"].values() for d in ds if d[0] == "$" and d[-1] == "1"})
+    if all_atom and dollar and rng.random() < 0.12:
+        # a hydrogen end group: a fragment that is a single hydrogen atom
+        desc = rng.choice(dollar)
+        frags.append({"name": "Hter", "text": "[%s][H]" % desc[:-1], "atoms": [{"el": "H", "charge": 0, "arom": False, "cap": 1}],
+                      "bonds": [], "descs": {"0": [desc]}, "hfill": [0], "mass": MASS["H"]})
     all_descs = sorted({d for f in frags for ds in f["descs"].values() for d in ds})
 
     def user_key(desc):
